@@ -478,21 +478,23 @@ theorem pool_step (c : Cfg) (s : State) (a : Act) (s' : State) (h : PoolInv c s)
   | putEnd hf hl => exact ⟨q1, q2, by simpa [hf] using q3, by simp, q5, q6, q7, q8⟩
   | putExc hf hl => exact ⟨q1, q2, by simpa [hf] using q3, by simp, q5, q6, q7, q8⟩
   | start hp hl =>
-    rename_i j rest
-    have hjp : j ∈ s.pending := by simp [hp]
-    have hnd : j ∉ rest ∧ rest.Nodup := by simpa [hp] using q1
-    have hsub : ∀ k, k ∈ rest → k ∈ s.pending := by intro k hk; simp [hp, hk]
+    rename_i j
+    have hjp : j ∈ s.pending := hp
+    have hsub : ∀ k, k ∈ s.pending.erase j → k ∈ s.pending := fun k hk => List.mem_of_mem_erase hk
+    have hjne : ∀ k, k ∈ s.pending.erase j → k ≠ j := by
+      intro k hk hkj; subst hkj
+      exact (List.Nodup.mem_erase_iff q1).mp hk |>.1 rfl
     have hjc : j ∉ s.calls := by
       rw [q7 j]; intro h
       rcases h with h | h
       · exact (q2 j hjp).1 h
       · exact (q2 j hjp).2 h.1
-    refine ⟨hnd.2, ?_, ?_, q4, ?_, ?_, ?_, ?_⟩
+    refine ⟨q1.erase _, ?_, ?_, q4, ?_, ?_, ?_, ?_⟩
     · intro k hk
       have := q2 k (hsub k hk)
       refine ⟨?_, this.2⟩
       simp only [List.mem_append, List.mem_singleton, not_or]
-      exact ⟨this.1, fun h => hnd.1 (h ▸ hk)⟩
+      exact ⟨this.1, hjne k hk⟩
     · intro k hk
       simp only [List.mem_append, List.mem_singleton] at hk
       rcases hk with hk | (hk | hk) | hk
